@@ -7,7 +7,7 @@ import numpy as np
 
 from .base import Prop, exc_name
 
-OPS = ("running", "down1d", "down2d", "down2dflat", "detrend", "deredden", "ts_down", "blk_down")
+OPS = ("running", "down1d", "down2d", "down2dflat", "detrend", "detrend-long", "deredden", "ts_down", "blk_down")
 DT = {"f4": np.float32, "f8": np.float64, "u1": np.uint8}
 
 
@@ -31,7 +31,7 @@ class C14(Prop):
             "(values near 255), linear detrending, de-reddening and the container wrappers; each compared with its "
             "definition in float64. Non-trivial = window > 1 or factor > 1; distinct by full case.")
     assumptions = ["bottleneck move_mean/move_median and np.pad('symmetric') are modelled, not verified"]
-    regimes_expected = ["running-odd", "running-even", "running-wide", "down1d", "down2d", "down2dflat", "detrend",
+    regimes_expected = ["running-odd", "running-even", "running-wide", "down1d", "down2d", "down2dflat", "detrend", "detrend-long",
                         "deredden", "ts_down", "blk_down"]
     budget_s = (150, 900)
 
@@ -57,6 +57,9 @@ class C14(Prop):
         for _ in range(40 * k):
             cases.append({"op": "detrend", "n": rng.choice((1, 2, 3, 5, 17, 64)), "dt": rng.choice(("f4", "f8")),
                           "dseed": rng.randrange(1 << 30)})
+        # long series: the closed-form sums m(m-1)/2, m(m-1)(2m-1)/6 and m*Sxx - Sx^2 pass 2^53 / 2^63 here
+        for n in ((120001, 300000) if tier == "quick" else (120001, 300000, 1000003)):
+            cases.append({"op": "detrend", "n": n, "dt": "f8", "dseed": rng.randrange(1 << 30)})
         for _ in range(30 * k):
             n = rng.randint(4, 40)
             cases.append({"op": "deredden", "n": n, "w": rng.randint(1, n + 3), "method": rng.choice(("mean", "median")),
@@ -174,7 +177,7 @@ class C14(Prop):
         if op in ("down2d", "down2dflat") and case["method"] == "mean":
             x = data_for(case, case["d1"] * case["d2"])
             return [f"C14 down2d {case['d1']} {case['d2']} {case['f1']} {case['f2']} {' '.join(str(int(v)) for v in x)}"]
-        if op == "detrend":
+        if op == "detrend" and case["n"] <= 200:
             x = data_for(case, case["n"])
             return [f"C14 detrend {case['n']} {' '.join(str(int(v)) for v in x)}"]
         return []
@@ -211,6 +214,8 @@ class C14(Prop):
             if case["w"] > case["n"]:
                 return "running-wide"
             return "running-odd" if case["w"] % 2 else "running-even"
+        if case["op"] == "detrend" and case["n"] > 100000:
+            return "detrend-long"
         return case["op"]
 
     def nontrivial(self, case, obs):
